@@ -37,6 +37,47 @@ type C08Case struct {
 	RepU       string   `json:"rep_u,omitempty"`
 	RepWiring  string   `json:"rep_wiring,omitempty"` // toplevel nested diamond
 	RepNames   []string `json:"rep_names,omitempty"`  // longhands observed
+	// kind "layers": the comma separated layers of a background shorthand
+	Layers []string `json:"layers,omitempty"`
+}
+
+var c08LayerNames = []string{"background-image", "background-position", "background-size", "background-repeat", "background-attachment", "background-origin", "background-clip"}
+
+// c08GenLayer draws one layer of the background shorthand: <bg-image> || <position> [ / <size> ]? || <repeat> || <attachment> || <box> || <box>
+func c08GenLayer(t *rapid.T) string {
+	var parts []string
+	if rapid.Bool().Draw(t, "limg") {
+		parts = append(parts, rapid.SampledFrom([]string{"none", "linear-gradient(red, blue)", "url(x.png)", "radial-gradient(lime, teal)"}).Draw(t, "img"))
+	}
+	if rapid.Bool().Draw(t, "lpos") {
+		p := rapid.SampledFrom([]string{"5px 5px", "center", "left top", "10% 20%", "right 3px bottom 4px"}).Draw(t, "pos")
+		if rapid.Bool().Draw(t, "lsize") {
+			p += " / " + rapid.SampledFrom([]string{"10px 20px", "cover", "contain", "auto 50%", "30px"}).Draw(t, "size")
+		}
+		parts = append(parts, p)
+	}
+	if rapid.Bool().Draw(t, "lrep") {
+		parts = append(parts, rapid.SampledFrom([]string{"no-repeat", "repeat-x", "space", "round repeat", "repeat-y"}).Draw(t, "rep"))
+	}
+	if rapid.Bool().Draw(t, "latt") {
+		parts = append(parts, rapid.SampledFrom([]string{"fixed", "scroll", "local"}).Draw(t, "att"))
+	}
+	switch rapid.IntRange(0, 3).Draw(t, "lbox") {
+	case 0:
+		parts = append(parts, rapid.SampledFrom([]string{"content-box", "padding-box", "border-box"}).Draw(t, "box1"))
+	case 1:
+		// (kept adjacent: the validator does not read two box keywords separated by another component)
+		parts = append(parts, rapid.SampledFrom([]string{"content-box", "padding-box", "border-box"}).Draw(t, "box1")+" "+rapid.SampledFrom([]string{"content-box", "padding-box", "border-box"}).Draw(t, "box2"))
+	}
+	if len(parts) == 0 {
+		parts = []string{"none"}
+	}
+	// the components of a layer come in any order
+	for i := len(parts) - 1; i > 0; i-- {
+		j := rapid.IntRange(0, i).Draw(t, "shuffle")
+		parts[i], parts[j] = parts[j], parts[i]
+	}
+	return strings.Join(parts, " ")
 }
 
 // values naming the same component twice
@@ -177,8 +218,13 @@ func c08Longhands(d gen.ValidDecl) [][2]string {
 
 func c08Gen(t *rapid.T, tier Tier) interface{} {
 	c := &C08Case{}
-	c.Kind = rapid.SampledFrom([]string{"variant", "variant", "variant", "shorthand", "var", "var", "interleave", "interleave"}).Draw(t, "kind")
+	c.Kind = rapid.SampledFrom([]string{"variant", "variant", "variant", "shorthand", "var", "var", "interleave", "interleave", "layers"}).Draw(t, "kind")
 	switch c.Kind {
+	case "layers":
+		for i, n := 0, rapid.IntRange(2, 4).Draw(t, "nlayers"); i < n; i++ {
+			c.Layers = append(c.Layers, c08GenLayer(t))
+		}
+		c.Canon = "background:" + strings.Join(c.Layers, ", ")
 	case "variant":
 		c.Decl = gen.GenValidDecl(t)
 		c.Important = rapid.IntRange(0, 3).Draw(t, "imp") == 0
@@ -315,6 +361,45 @@ func c08Check(ci interface{}) Verdict {
 			return Verdict{Sig: "C08:" + class + ":" + feat, Msg: fmt.Sprintf("%q is accepted as [%s] but its spelling variant %q gives [%s]", c.Canon, c08DeclsString(a), c.Variant, c08DeclsString(b)), Labels: labels}
 		}
 		return Verdict{NonTrivial: c.Canon != c.Variant, Labels: append(labels, "feat:"+c08SpellingFeature(c.Canon, c.Variant))}
+	case "layers":
+		// a shorthand of several layers assigns to each list-valued longhand, layer by layer, what the
+		// shorthand of that layer alone assigns
+		if len(c08Preprocess(c.Canon)) == 0 {
+			return Verdict{Excluded: "generator-rejected", Labels: append(labels, "generator-rejected")}
+		}
+		for _, l := range c.Layers {
+			if len(c08Preprocess("background:"+l)) == 0 {
+				return Verdict{Excluded: "generator-rejected", Labels: append(labels, "generator-rejected")}
+			}
+		}
+		whole, err := c08Computed("", c.Canon, c08LayerNames)
+		if err != nil {
+			return Verdict{Excluded: "infra:" + err.Error(), Labels: labels}
+		}
+		want := map[string]reflect.Value{}
+		for _, l := range c.Layers {
+			one, err := c08Computed("", "background:"+l, c08LayerNames)
+			if err != nil {
+				return Verdict{Excluded: "infra:" + err.Error(), Labels: labels}
+			}
+			for _, n := range c08LayerNames {
+				v := reflect.ValueOf(one[n])
+				if v.Kind() != reflect.Slice || v.Len() != 1 {
+					return Verdict{Excluded: "single-layer-not-a-list-of-one", Labels: labels}
+				}
+				if w, ok := want[n]; ok {
+					want[n] = reflect.AppendSlice(w, v)
+				} else {
+					want[n] = reflect.AppendSlice(reflect.MakeSlice(v.Type(), 0, 4), v)
+				}
+			}
+		}
+		for _, n := range c08LayerNames {
+			if got := whole[n]; !reflect.DeepEqual(got, want[n].Interface()) {
+				return Verdict{Sig: "C08:layers:" + n, Msg: fmt.Sprintf("%q: computed %s = %v; the layers taken one by one give %v", c.Canon, n, got, want[n].Interface()), Labels: labels}
+			}
+		}
+		return Verdict{NonTrivial: true, Labels: append(labels, fmt.Sprintf("layers:%d", len(c.Layers)))}
 	case "interleave":
 		clean := strings.Join(c.Block, ";")
 		var mixed []string
